@@ -13,7 +13,7 @@ from ..monitors import V
 from ..spaces import kinds_rotating, prog_of, shard_iter
 
 ID = "C19"
-BUDGET = {"quick": 100, "thorough": 1800}
+BUDGET = {"quick": 100, "thorough": 600}
 X = -1  # the DAG argument x as a vertex
 
 
@@ -114,9 +114,9 @@ def alias_of(p: GProg, d, v: int, form: str):
 
 def cases(tier: str):
     q = tier == "quick"
-    for n in (1, 2, 3, 4):
+    for n in ((1, 2, 3, 4) if q else (1, 2, 3, 4, 5)):
         for es in shapes(n):
-            if n == 4 and q and len(es) > 3:
+            if n == 5 and len(es) > 4:
                 continue
             for off in ((0, 4) if n <= 3 else (4,)):
                 es4 = kinds_rotating(es, off)
@@ -124,7 +124,7 @@ def cases(tier: str):
                     continue
                 falsies = [[]] + ([[["IN", list(path)] for (i, j, k, path) in es4 if k == "flag"][:1]] if any(k == "flag" for (_, _, k, _) in es4) else [])
                 for fz in range(len(falsies)):
-                    for form in (("id", "ref", "tag") if n <= 2 else ("id",)):
+                    for form in (("id", "ref", "tag") if n <= (2 if q else 3) else ("id",)):
                         yield dict(n=n, es=es4, falsy_inputs=bool(fz), form=form, ydefault=(n >= 2 and off == 0), is_async=[None, True, False][(len(es) + n) % 3])
     yield dict(n=3, es=kinds_rotating([(0, 2), (1, 2)], 0), special="ambiguous_tag", form="id", ydefault=False, falsy_inputs=False, is_async=None)
     yield dict(n=3, es=kinds_rotating([(0, 1), (1, 2)], 0), special="ellipsis", form="id", ydefault=True, falsy_inputs=False, is_async=None)
